@@ -85,5 +85,26 @@ CHECKS["C11"] = dict(
     technique="TLA+ spec of the ideal builder and AND/OR-graph meaning (AOG.tla) judged by TLC on recorded builder histories",
 )
 
+_TV_NOTE = ("Trusted: TLC + spec/AOG.tla, Circuit.tla, the artefact dumper (public iteration over formulas, "
+            "CNF.to_dimacs text re-parsed by the harness). Exhaustive per instance up to 8 atoms / 12 CNF variables; "
+            "larger instances are skipped and counted. Atom weights compared for equality in the harness.")
+CHECKS["C09"] = dict(
+    category="translation_validation",
+    text="Each LogicFormula the engine produces from generated programs (incl. cyclic ones) is pushed through the real "
+         "break_cycles and clarks_completion; TLC (JudgeCircuit.tla) decides for every instance, exhaustively over atom "
+         "assignments: DAG acyclic and every query/evidence node has the well-founded value of the cyclic source; the CNF "
+         "has exactly one model extending each constraint-allowed atom assignment and it agrees with the DAG on every "
+         "node; AD constraints appear as exactly-one clauses; weights unchanged.",
+    design_ref="DESIGN.md §5 C09", note=_TV_NOTE,
+    technique="translation validation of every transformation instance by TLC against TLA+ definitions (AOG.tla, Circuit.tla)")
+CHECKS["C10"] = dict(
+    category="translation_validation",
+    text="Each (CNF, DDNNF) pair produced by the real dsharp compilation path (to_dimacs, _load_nnf, trivial-CNF path) is "
+         "judged by TLC: decomposable, deterministic (no assignment makes two OR children true), smooth, same models as "
+         "the CNF over all 2^n assignments, labels point to the same literals (or FALSE only if the literal is false in "
+         "every model), weights carried over.",
+    design_ref="DESIGN.md §5 C10", note=_TV_NOTE + " dsharp itself is outside the repository.",
+    technique="translation validation of every compiled circuit by TLC against TLA+ d-DNNF definitions (Circuit.tla)")
+
 NOT_YET = "check not built yet in this round (planned in DESIGN.md §5); not claimed"
 NOT_APPLICABLE = {}
